@@ -152,9 +152,20 @@ class C17(object):
             relation = "same"
         else:
             p_lines = G.render(G.ProgGen(rng.fork("p"), n=rng.randint(1, 15), features=feats).program())
+        deco = rng.weighted([(None, 80), ("bom", 5), ("crlf", 5), ("trailing_ws", 4), ("blank_lines", 3), ("tabs", 3)])
+        if deco == "bom":
+            p_lines = ["\ufeff" + p_lines[0]] + p_lines[1:] if p_lines else p_lines
+        elif deco == "crlf":
+            p_lines = [l[:-1] + "\r\n" if l.endswith("\n") else l for l in p_lines]
+        elif deco == "trailing_ws":
+            p_lines = [l[:-1] + "   \n" if l.endswith("\n") else l for l in p_lines]
+        elif deco == "blank_lines":
+            p_lines = ["\n", "   \n"] + p_lines + ["\n", "; trailing comment\n"]
+        elif deco == "tabs":
+            p_lines = [l.replace(" ", "\t", 1) for l in p_lines]
         history.append(p_lines)
         history.append(list(p_lines))
-        return {"hash_seed": hs[slot], "slot": slot, "history": history, "shapes": shapes, "relation": relation}
+        return {"hash_seed": hs[slot], "slot": slot, "history": history, "shapes": shapes, "relation": relation, "deco": deco}
 
     def run(self, case):
         res = Result()
@@ -187,7 +198,8 @@ class C17(object):
         for ph in case.get("shapes", []):
             res.stats["prior:" + ph] += 1
         res.states.add("|".join([str(len(hist) - 2), ",".join(case.get("shapes", [])), str(case.get("slot")), outcomes[-1],
-                                 case.get("relation", "")]))
+                                 case.get("relation", ""), str(case.get("deco"))]))
+        res.stats["outcome_of_P:" + outcomes[-1].split(":")[0]] += 1
         res.digest = hashlib.sha256(json.dumps([warm, sorted(cache.items())], sort_keys=True).encode()).hexdigest()
         return res
 
